@@ -210,6 +210,64 @@ impl<'tcx> Dumper<'tcx> {
         let tcx = self.tcx;
         let mut out = vec![];
         if !self.is_foreign_leaf_crate(rd) {
+            // a generic function of the workspace instantiated with a user type: the calls of its body (and of the closures it
+            // builds) whose callee depends on a type parameter are resolved with the type arguments of *this* call
+            // (`fn concat_display<T: Display>(..)` called with T = XmlAttributeValue reaches <XmlAttributeValue as Display>::fmt
+            // through `v.to_string()`, which the generic body alone cannot name)
+            if rargs.iter().any(|a| a.as_type().is_some())
+                && matches!(tcx.def_kind(rd), rustc_hir::def::DefKind::Fn | rustc_hir::def::DefKind::AssocFn)
+                && rd.is_local()
+                && tcx.is_mir_available(rd)
+            {
+                let mut bodies: Vec<(DefId, ty::GenericArgsRef<'tcx>)> = vec![(rd, rargs)];
+                let mut seen_bodies = 0usize;
+                while seen_bodies < bodies.len() && bodies.len() < 16 {
+                    let (bd, bargs) = bodies[seen_bodies];
+                    seen_bodies += 1;
+                    if !bd.is_local() || !tcx.is_mir_available(bd) {
+                        continue;
+                    }
+                    let body = tcx.optimized_mir(bd);
+                    for bb in body.basic_blocks.iter() {
+                        for st in bb.statements.iter() {
+                            if let mir::StatementKind::Assign(b) = &st.kind {
+                                if let mir::Rvalue::Aggregate(k, _) = &b.1 {
+                                    if let mir::AggregateKind::Closure(cd, cargs) = &**k {
+                                        let inst = ty::EarlyBinder::bind(*cargs).instantiate(tcx, bargs).skip_norm_wip();
+                                        if !bodies.iter().any(|(x, _)| x == cd) {
+                                            bodies.push((*cd, inst));
+                                        }
+                                    }
+                                }
+                            }
+                        }
+                        if let Some(term) = &bb.terminator {
+                            if let mir::TerminatorKind::Call { func, .. } = &term.kind {
+                                if let Some((cd, cargs)) = func.const_fn_def() {
+                                    if !cargs.iter().any(|a| a.walk().any(|x| matches!(x.as_type().map(|t| t.kind()), Some(ty::Param(_))))) {
+                                        continue;   // does not depend on a type parameter: already an ordinary edge of the callee
+                                    }
+                                    let inst = ty::EarlyBinder::bind(cargs).instantiate(tcx, bargs).skip_norm_wip();
+                                    if inst.iter().any(|a| a.walk().any(|x| matches!(x.as_type().map(|t| t.kind()), Some(ty::Param(_))))) {
+                                        continue;
+                                    }
+                                    if let Some((d, da)) = self.resolve(owner, cd, inst) {
+                                        if self.is_foreign_leaf_crate(d) {
+                                            for (d2, da2) in self.forwards(owner, d, da) {
+                                                if !out.iter().any(|(x, _)| *x == d2) {
+                                                    out.push((d2, da2));
+                                                }
+                                            }
+                                        } else if !out.iter().any(|(x, _)| *x == d) {
+                                            out.push((d, da));
+                                        }
+                                    }
+                                }
+                            }
+                        }
+                    }
+                }
+            }
             return out;
         }
         let user_tys: Vec<Ty<'tcx>> = rargs
